@@ -17,6 +17,10 @@ Beh_C04 == Beh_Kinds({"nop", "raise", "disable", "enable"})
 Beh_C10 == Beh_Kinds({"nop", "drop", "remove"})
 Beh_C03 == Beh_Kinds({"nop", "add", "remove", "disp"})
 
+Beh_OnlyH1(K) == {b \in Beh_Kinds(K) : \A h \in H \ {"h1"} : b[h][1] = "nop"}
+Beh_C10_H1 == Beh_OnlyH1({"nop", "drop", "remove"})
+Beh_C03_H1 == Beh_OnlyH1({"nop", "add", "remove", "disp"})
+
 Subs_All == [H -> (SUBSET Ev) \ {{}}]
 Subs_AllA == {s \in Subs_All : \A h \in H : Trigger \in s[h]}
 Subs_Fixed == {[h \in H |-> IF h = "h1" THEN Ev ELSE {Trigger}]}
